@@ -146,18 +146,33 @@ impl TlsVal {
 
 impl Drop for TlsVal {
     fn drop(&mut self) {
-        // `try_with` on the *other* key from a destructor at thread exit: loom
-        // destroys all locals of the thread together, so this must not succeed
-        // in giving access to a live value that is later used; we only record
-        // whether it reported AccessError.
-        let other_ok = if self.key == 0 {
-            TLS1.try_with(|_| ()).is_ok()
-        } else {
-            TLS0.try_with(|_| ()).is_ok()
+        // `try_with` from a destructor at thread exit must report AccessError for a key whose
+        // value is destroyed or being destroyed. Only keys this thread initialised are probed: probing
+        // a key that was never initialised would create it during destruction (std does the same).
+        let t = CUR_THREAD.with(|t| *t.borrow());
+        let sh = current();
+        let initialised = |key: usize| -> bool {
+            sh.as_ref().map(|s| lock(&s.cur).notes.iter().any(|n| n.0 == NOTE_TLS_INIT && n.1 == key as i64 && n.2 == t as i64)).unwrap_or(false)
         };
-        let me_ok = if self.key == 0 { TLS0.try_with(|_| ()).is_ok() } else { TLS1.try_with(|_| ()).is_ok() };
-        if let Some(s) = current() {
-            let t = CUR_THREAD.with(|t| *t.borrow());
+        let other = 1 - self.key;
+        let probe = |key: usize| -> bool {
+            if key == 0 {
+                TLS0.try_with(|_| ()).is_ok()
+            } else {
+                TLS1.try_with(|_| ()).is_ok()
+            }
+        };
+        // (never probe while unwinding or outside a model: a value that outlives its iteration because
+        // the iteration failed is destroyed during loom's cleanup, where no execution is accessible)
+        let safe_probe = |key: usize| -> bool {
+            if std::thread::panicking() {
+                return false;
+            }
+            std::panic::catch_unwind(std::panic::AssertUnwindSafe(|| probe(key))).unwrap_or(false)
+        };
+        let other_ok = initialised(other) && safe_probe(other);
+        let me_ok = initialised(self.key) && safe_probe(self.key);
+        if let Some(s) = sh {
             s.note(
                 NOTE_TLS_DROP,
                 self.key as i64,
@@ -276,6 +291,9 @@ struct Th<'a> {
 
 fn run_thread(t: usize, sh: StdArc<Shared>, o: StdArc<Objs>) {
     CUR_THREAD.with(|c| *c.borrow_mut() = t);
+    if t > 0 {
+        sh.note(NOTE_THREAD_ID, t as i64, thread_id_num(&loom::thread::current()));
+    }
     let nm = o.mutexes.len();
     let nr = o.rwlocks.len();
     let na = sh.prog.n_arcs();
